@@ -630,6 +630,40 @@ func (u *vCluster) posted(addr, path, topic, channel, node string) bool {
 	return false
 }
 
+// postsTo: how many POSTs (of any kind) upstream `addr` received
+func (u *vCluster) postsTo(addr string) int {
+	n := 0
+	if verifrt.Symbolic() {
+		for _, e := range u.posts {
+			if vEndpointAddr(e) == addr {
+				n++
+			}
+		}
+		return n
+	}
+	u.mu.Lock()
+	defer u.mu.Unlock()
+	for _, r := range u.reqs {
+		if r.srv == addr && r.method != "GET" {
+			n++
+		}
+	}
+	return n
+}
+
+// strayPosts (symbolic recorder only): POSTs to an address that is neither an nsqlookupd nor an
+// nsqd of the cluster
+func (u *vCluster) strayPosts() int {
+	n := 0
+	for _, e := range u.posts {
+		a := vEndpointAddr(e)
+		if vIndexOf(u.lookupdAddrs, a) < 0 && vIndexOf(u.nsqdAddrs, a) < 0 && vIndexOf(u.idleAddrs, a) < 0 {
+			n++
+		}
+	}
+	return n
+}
+
 // nPosts: how many POSTs reached the cluster
 func (u *vCluster) nPosts() int {
 	if verifrt.Symbolic() {
